@@ -11,6 +11,8 @@
                             cache_key = (keygetter(..), current_thread(), id(fn))
     asynq/scoped_value.py   AsyncScopedValue._value, _AsyncScopedValueOverrideContext   } objects that are shared
     asynq/tools.py          alru_cache: the closure variable `cache`                      } BY DESIGN by whoever holds them
+    asynq/futures.py        none_future._in_repr (FutureBase.__repr__) - mutable state of a process-wide object of the
+                            LIBRARY itself (third audit A4; `Shared.nf`, `Op.nfRepr/nfEnter/nfExit`)
 
   `GState` has three parts: `locals` (the carriers indexed by the thread: what a `threading.local` / a ContextVar /
   an object owned by one thread holds - a map slot ↦ `TL`), `tasks` (the one deduplicate dict, keys carry a thread
@@ -105,6 +107,8 @@ structure TL where
   amode : Bool                          -- `_asyncio_mode.get()` in this thread's context
   amodeSaved : List Bool                -- `Token.old_value` of the AsyncioMode objects entered and not yet left (innermost first)
   svSaved : List Nat                    -- `_old_value` of the _AsyncScopedValueOverrideContext objects this thread is inside of (innermost first)
+  nfHeld : Bool                         -- this thread is inside the activation of `FutureBase.__repr__(none_future)` that set `_in_repr`
+                                        --   (futures.py:166-184: it is past `self._in_repr = True` and before the `finally`)
   deriving Repr, DecidableEq, Inhabited
 
 /-- a thread that has not touched asynq yet: `LocalTaskSchedulerState.__init__` (last_id = 0, then reset() creates
@@ -112,7 +116,7 @@ structure TL where
 def TL.init : TL :=
   { sched := { lastId := 1, id := 1, stack := [], batches := [], active := none, saved := [] },
     dbg := [], stats := [], counter := 0, nextTok := 0, pids := [], cbs := [], amode := false, amodeSaved := [],
-    svSaved := [] }
+    svSaved := [], nfHeld := false }
 
 /-- a thread whose context is a copy of its creator's (`Thread(target=ctx.run, ..)`, `asyncio.to_thread`): the
     ContextVar `_asyncio_mode` starts with the creator's value `m`; there is no Token to reset it with.  The
@@ -125,9 +129,11 @@ def TL.initM (m : Bool) : TL := { TL.init with amode := m }
 structure Shared where
   sv : Nat               -- AsyncScopedValue._value          (scoped_value.py:35-43)
   lru : List Nat         -- keys in the `cache` closure variable of alru_cache's decorator (tools.py:230, maxsize never reached)
+  nf : Bool              -- `asynq.none_future._in_repr` (futures.py:225, 166-184): mutable state of the LIBRARY'S OWN process-wide
+                         --   constant future - every program that mentions `none_future` shares it, whether it wants to or not
   deriving Repr, DecidableEq, Inhabited
 
-def Shared.init : Shared := { sv := 0, lru := [] }
+def Shared.init : Shared := { sv := 0, lru := [], nf := false }
 
 inductive Op where
   -- scheduler.py
@@ -162,6 +168,11 @@ inductive Op where
   | svEnter (v : Nat)             -- `with V.override(v)`: AsyncContext.__enter__ -> resume()
   | svExit                        -- leaving that block: AsyncContext.__exit__ -> pause()
   | lruCall (k : Nat)             -- a synchronous call F(k) of an @alru_cache() @asynq() function
+  -- the library's own process-wide object `asynq.none_future` (futures.py:225): FutureBase.__repr__ (futures.py:166-184)
+  | nfRepr                        -- `repr(none_future)`, the whole call without a thread switch inside it
+  | nfEnter                       -- `repr(none_future)` up to the first call made inside `__repr__` (past `self._in_repr = True`),
+                                  --   where the thread is preempted - or the whole call if it answers "<recursion>" at once
+  | nfExit                        -- the rest of that call: the `finally: self._in_repr = False` of the activation that set it
   deriving Repr, DecidableEq, Inhabited
 
 def Op.name : Op → String
@@ -173,10 +184,11 @@ def Op.name : Op → String
   | .dedupCall _ _ => "dedupCall" | .dirty _ _ => "dirty"
   | .amEnter => "amEnter" | .amExit => "amExit" | .amGet => "amGet" | .note _ _ => "note"
   | .svGet => "svGet" | .svSet _ => "svSet" | .svEnter _ => "svEnter" | .svExit => "svExit" | .lruCall _ => "lruCall"
+  | .nfRepr => "nfRepr" | .nfEnter => "nfEnter" | .nfExit => "nfExit"
 
 /-- the operations on objects that are shared by design -/
 def Op.isShared : Op → Bool
-  | .svGet | .svSet _ | .svEnter _ | .svExit | .lruCall _ => true
+  | .svGet | .svSet _ | .svEnter _ | .svExit | .lruCall _ | .nfRepr | .nfEnter | .nfExit => true
   | _ => false
 
 /-- which component an operation belongs to (used for the clause name of a failing spec) -/
@@ -189,6 +201,7 @@ def Op.component : Op → String
   | .amEnter | .amExit | .amGet => "asyncio-mode"
   | .note _ _ => "trace"
   | .svGet | .svSet _ | .svEnter _ | .svExit | .lruCall _ => "shared-object"
+  | .nfRepr | .nfEnter | .nfExit => "none-future"
 
 inductive Obs where
   | unit
@@ -324,7 +337,8 @@ def privStep (perf : Bool) (look : Nat × Nat → Option Nat) (l : TL) (op : Op)
     | [] => (l, .none, .unit)
   | .amGet => (l, .none, .bool l.amode)
   | .note _ _ => (l, .none, .unit)
-  | .svGet | .svSet _ | .svEnter _ | .svExit | .lruCall _ => (l, .none, .other)    -- not handled here: `sharedStep`
+  | .svGet | .svSet _ | .svEnter _ | .svExit | .lruCall _ | .nfRepr | .nfEnter | .nfExit =>
+    (l, .none, .other)    -- not handled here: `sharedStep`
 
 /-- the value an `F(k)` call of the cached function returns (a function of the argument only) -/
 def lruValue (k : Nat) : Nat := 10 * k + 1
@@ -354,6 +368,15 @@ def sharedStep (perf : Bool) (sh : Shared) (l : TL) (op : Op) : Option (TL × Sh
                  { sh with lru := k :: sh.lru }, .cache false (lruValue k))
     else if hit then some (l, sh, .cache true (lruValue k))
     else some (l, { sh with lru := k :: sh.lru }, .cache false (lruValue k))
+  -- FutureBase.__repr__ on `none_future` (futures.py:166-184): `if self._in_repr: return "<recursion>"`, else
+  -- `self._in_repr = True`, format, `finally: self._in_repr = False`.  Observation: was the answer "<recursion>".
+  | .nfRepr => some (l, sh, .bool sh.nf)          -- without a thread switch inside: the flag is back where it was
+  | .nfEnter =>
+    if sh.nf then some (l, sh, .bool true)        -- returns before the `try`: this activation will not reset the flag
+    else some ({ l with nfHeld := true }, { sh with nf := true }, .bool false)
+  | .nfExit =>
+    if l.nfHeld then some ({ l with nfHeld := false }, { sh with nf := false }, .unit)
+    else some (l, sh, .unit)
   | _ => none
 
 /-- result of one operation: new carriers of the calling thread, action on the deduplicate dict, new shared objects,
@@ -598,16 +621,79 @@ def specCheckOwn (perf : Bool) (k : Nat) (aloneRecs : List (List Rec)) (conc : L
       | some (_, _, c) => some ("interference:" ++ c)
       | none => none
 
-/-- why the recorded runs violate C16 (`none` = they do not).  The last clause, `interference:shared-object`, is the
-    property AS STATED applied to programs that share an AsyncScopedValue / a cached function between threads: some
-    thread's records differ from its run alone although nothing that `specCheckOwn` looks at does. -/
+/-! ### after the cut (third audit D10): under COLLECT_PERF_STATS the records of a thread after its first cached call are
+    not in `strictPart`, because the profiler ids handed out from there on depend on the shared cache (one id on a hit,
+    two on a miss).  They are compared MODULO exactly that: profiler ids, the value of the profiler counter and the
+    per-task entries of the profiler buffer are erased; everything else (which task is active, which task a
+    deduplicated call hands out, batch compositions, scheduler numbers, asyncio mode ...) must equal the run alone.
+    A difference found here has a clause name of its own, so the recorded finding `interference:shared-object` never
+    explains a deduplicate hand-over or a wrong active task that happens after a cached call. -/
+
+def Stat.isTask : Stat → Bool
+  | .task _ => true
+  | _ => false
+
+/-- an observation with everything erased that a profiler id can legitimately influence -/
+def maskObs (op : Op) : Obs → Obs
+  | .task tok _ => .task tok 0
+  | .item idx pos _ => .item idx pos 0
+  | .dedup kind tok _ => .dedup kind tok 0
+  | .stats l => .stats (l.filter fun s => !s.isTask)
+  | .nat n => match op with | .profIncr => .nat 0 | _ => .nat n
+  | o => o
+
+/-- the records of a thread that are not themselves operations on a shared object, ALL of them (no cut), modulo
+    profiler ids -/
+def maskedPart (l : List Rec) : List Rec := (priv l).map fun r => (r.1, maskObs r.1 r.2)
+
+/-- the first thread (below `k`) whose private records differ from its run alone in more than profiler ids -/
+def maskedFind (aloneRecs : List (List Rec)) (conc : List (ThreadId × Rec)) : Nat → Option (ThreadId × Nat × String)
+  | 0 => none
+  | k + 1 =>
+    match maskedFind aloneRecs conc k with
+    | some r => some r
+    | none =>
+      match firstDiff (maskedPart (aloneRecs.getD k [])) (maskedPart (proj k conc)) 0 with
+      | some (i, c) => some (k, i, c)
+      | none => none
+
+/-! ### the library's own `none_future` (third audit A4) -/
+
+def isNf : Op → Bool
+  | .nfRepr | .nfEnter | .nfExit => true
+  | _ => false
+
+/-- the records of `repr(none_future)` of a thread -/
+def nfPart (l : List Rec) : List Rec := l.filter fun r => isNf r.1
+
+/-- the first thread (below `k`) to which `repr(none_future)` answered differently than alone -/
+def nfFind (aloneRecs : List (List Rec)) (conc : List (ThreadId × Rec)) : Nat → Option ThreadId
+  | 0 => none
+  | k + 1 =>
+    match nfFind aloneRecs conc k with
+    | some r => some r
+    | none => if nfPart (aloneRecs.getD k []) = nfPart (proj k conc) then none else some k
+
+/-- why the recorded runs violate C16 (`none` = they do not).  After `specCheckOwn`:
+    `interference-after-cached-call:<component>` - under COLLECT_PERF_STATS a private record after the thread's first
+    cached call differs from the run alone in more than a profiler id (nothing shared explains that);
+    `interference:none-future-repr` - `repr(asynq.none_future)` answered "<recursion>" to a thread because ANOTHER thread
+    was inside `FutureBase.__repr__` of that process-wide object of the LIBRARY (the program shares nothing of its own);
+    `interference:shared-object` - the property AS STATED applied to programs that share an AsyncScopedValue / a cached
+    function between threads: some thread's records differ from its run alone although nothing above does. -/
 def specCheck (perf : Bool) (k : Nat) (aloneRecs : List (List Rec)) (conc : List (ThreadId × Rec)) : Option String :=
   match specCheckOwn perf k aloneRecs conc with
   | some c => some c
   | none =>
-    match fullFind aloneRecs conc k with
-    | some _ => some "interference:shared-object"
-    | none => none
+    match (if perf then maskedFind aloneRecs conc k else none) with
+    | some (_, _, c) => some ("interference-after-cached-call:" ++ c)
+    | none =>
+      match nfFind aloneRecs conc k with
+      | some _ => some "interference:none-future-repr"
+      | none =>
+        match fullFind aloneRecs conc k with
+        | some _ => some "interference:shared-object"
+        | none => none
 
 /-- `Spec.C16` for `k` threads; `perf` = COLLECT_PERF_STATS of the recorded runs -/
 def spec (perf : Bool) (k : Nat) (aloneRecs : List (List Rec)) (conc : List (ThreadId × Rec)) : Bool :=
@@ -640,7 +726,8 @@ def knownShared : List (String × String × String × String) :=
     ("async_task", "_empty_tuple", "call:tuple", "immutable"),
     ("async_task", "_empty_dictionary", "call:dict", "shared empty kwargs default, never written"),
     ("futures", "_none", "call:core_helpers.MarkerObject", "immutable marker"),
-    ("futures", "none_future", "call:ConstFuture", "computed constant future, no subscribers kept"),
+    ("futures", "none_future", "call:ConstFuture",
+      "NOT immutable: a computed constant future that keeps no subscribers, but FutureBase.__repr__ writes its `_in_repr` flag (Shared.nf): OPEN FINDING interference:none-future-repr"),
     ("generator", "END_OF_GENERATOR", "call:qcore.MarkerObject", "immutable marker"),
     ("decorators", "logger", "call:logging.getLogger", "logging"),
     ("debug", "_use_original_exc_handler", "global", "process-wide diagnostics configuration"),
